@@ -39,7 +39,7 @@ def budget(tier):
     ex = int(os.environ.get("VERIF_EXAMPLES", "0"))
     if tier == "quick":
         return dict(shards=16, examples=ex or 60, shrink_calls=40, shard_timeout=1500, time_budget=110)
-    return dict(shards=16, examples=ex or 1500, shrink_calls=300, shard_timeout=6 * 3600, time_budget=3 * 3600)
+    return dict(shards=16, examples=ex or 8000, shrink_calls=300, shard_timeout=6 * 3600, time_budget=1500)
 
 
 ATOMS = ["0", "1", "-1", "2", "3", "1/2", "-2", "5", "-1/3", "4", "3/2", "10"]
